@@ -683,3 +683,20 @@ def m_op_eq(it, a, b):
 @model(operator.ne)
 def m_op_ne(it, a, b):
     return ops.compare(it, ast.NotEq, a, b)
+
+
+import functools as _functools
+
+
+@model(_functools.reduce)
+def m_reduce(it, function, iterable, *initial):
+    xs = ops.native_iter(it, iterable)
+    if initial:
+        acc = initial[0]
+    else:
+        if not xs:
+            raise SymRaise(ExcValue(TypeError, ("reduce() of empty iterable with no initial value",)))
+        acc, xs = xs[0], xs[1:]
+    for x in xs:
+        acc = it.call(function, (acc, x), {})
+    return acc
